@@ -172,7 +172,80 @@ def campaign(seed, n, switches=frozenset()):
     return stats
 
 
+ENUM_OPS = ["+", "-", "*", "/", "^", "AND", "OR"]
+ENUM_LEAVES = [["var", "I"], ["var", "J"], ["var", "K"], ["var", "N"]]
+
+
+def _shapes(n):
+    """All binary tree shapes with n internal nodes, as nested tuples ('.', l, r) / None for a leaf."""
+    if n == 0:
+        return [None]
+    out = []
+    for k in range(n):
+        for l in _shapes(k):
+            for r in _shapes(n - 1 - k):
+                out.append((".", l, r))
+    return out
+
+
+def _fill(shape, ops, leaves):
+    if shape is None:
+        return leaves.pop(0)
+    op = ops.pop(0)
+    l = _fill(shape[1], ops, leaves)
+    r = _fill(shape[2], ops, leaves)
+    return ["bin", op, l, r]
+
+
+def _has_chained_pow(e):
+    if e[0] != "bin":
+        return False
+    if e[1] == "^" and e[2][0] == "bin" and e[2][1] == "^":
+        return True  # A^B^C unparenthesised: uncertain zone U-1
+    return _has_chained_pow(e[2]) or _has_chained_pow(e[3])
+
+
+def enumerate_trees(part, nparts, switches=frozenset()):
+    """Every operator tree with 1..3 binary operators over + - * / ^ AND OR and distinct variable leaves, in an
+    assignment, under two value vectors (complete enumeration; chained '^' excluded as uncertain zone U-1)."""
+    import itertools
+
+    stats = Stats()
+    vectors = [{"I": 7, "J": 3, "K": 2, "N": 5}, {"I": -6, "J": 4, "K": 1, "N": 3}]
+    k = 0
+    for n in (1, 2, 3):
+        for shape in _shapes(n):
+            for ops in itertools.product(ENUM_OPS, repeat=n):
+                k += 1
+                if k % nparts != part:
+                    continue
+                e = _fill(shape, list(ops), [list(x) for x in ENUM_LEAVES])
+                if _has_chained_pow(e):
+                    stats.excluded["chained_power_U1"] += 1
+                    continue
+                for vec in vectors:
+                    init = [["let", ["var", v], cbgen.lit_expr(x), False] for v, x in vec.items()]
+                    prog = [[10, init], [30, [["let", ["var", "X"], e, False]]], [40, [["print", [["e", ["var", "X"]]]]]]]
+                    case = {"prog": prog, "paren_unary": "paren_unary" in switches}
+                    try:
+                        check_case(case)
+                    except Violation as v:
+                        stats.fail(v.detail, v.case)
+                        return stats
+                    triv = case.get("_trivial")
+                    stats.case(key=[e, vec], nontrivial=(n >= 2 and not triv), classes=["enumerated_tree_%d_ops" % n] + (["trivial_" + triv.split(":")[0]] if triv else []),
+                               sample={"source": case.get("_source", "").split("\n")[1] if case.get("_source") else ""})
+    stats.exhaustive = True
+    return stats
+
+
 def plan(tier, seed, switches):
     if tier == "quick":
-        return [("campaign", [dict(seed=seed * 100 + k, n=400, switches=switches) for k in range(4)])]
-    return [("campaign", [dict(seed=seed * 1000 + k, n=4000, switches=switches) for k in range(16)])]
+        return [("campaign", [dict(seed=seed * 100 + k, n=400, switches=switches) for k in range(4)]),
+                ("enumerate_trees", [dict(part=k, nparts=4, switches=switches) for k in range(4)])]
+    return [("campaign", [dict(seed=seed * 1000 + k, n=4000, switches=switches) for k in range(16)]),
+            ("enumerate_trees", [dict(part=k, nparts=8, switches=switches) for k in range(8)])]
+
+
+def evidence_extra(stats):
+    return {"exhaustive_part": "every operator tree with 1-3 binary operators over + - * / ^ AND OR (distinct variable leaves, two value vectors, assignment context) is enumerated on every run"}
